@@ -148,6 +148,15 @@ theorem pq_position_one_iff_next {x : PQ} (hwf : WF compare_func x.queue) {h : N
     pqPosition x h = 1 ↔ ∃ t, KPQ.lookup (abs x.queue) h = some t ∧ IsMin compare_func (abs x.queue) t :=
   pqPosition_one_iff hwf hk
 
+/-- … and it is the index of delivery: each get that delivers another entry lowers the position of every handle that
+    stays queued by exactly one, so a handle at position `k` is handed out by the `k`-th get from now if nothing else
+    changes; the position query therefore agrees with the order in which objects will actually be delivered -/
+theorem pq_position_is_delivery_index {x : PQ} (hwf : WF compare_func x.queue) (hpos : 0 < x.queue.count) {h : Nat}
+    (hk : h ∈ keys (abs x.queue)) (hne : h ≠ (x.queue.tag 1).key) :
+    ∃ q', HashHeap.dequeue compare_func x.queue = .ok (q', some (x.queue.tag 1)) ∧ WF compare_func q' ∧
+      h ∈ keys (abs q') ∧ pqPosition { x with queue := q' } h + 1 = pqPosition x h :=
+  pqPosition_after_get hwf hpos hk hne
+
 theorem pq_position_zero_if_absent {x : PQ} (hwf : WF compare_func x.queue) {h : Nat} (hk : h ∉ keys (abs x.queue)) :
     pqPosition x h = 0 :=
   pqPosition_absent hwf hk
